@@ -34,7 +34,7 @@ static Case gen_case ()
 	c.seti ("bigchunk", *rc::gen::element (0, 0, 0, 17000, 40001, 70000)) ;	// an unknown chunk of that size spliced in before the audio (WAV / AIFF families, valid inputs)
 	c.seti ("annot", *rc::gen::element (0, 0, 4, 9, 100, 70000)) ;	// AU annotation bytes between header and audio
 	c.seti ("id3", *rc::gen::element (0, 0, 0, 0, 10, 137)) ;	// an ID3v2 tag of that payload size in front of the file
-	c.seti ("lead", *rc::gen::element (1, 3, 4, 7, 64, 1001)) ; c.seti ("trail", *rc::gen::element (0, 1, 2, 13, 500)) ;
+	c.seti ("lead", *rc::gen::element (1, 3, 4, 7, 64, 1001)) ; c.seti ("trail", *rc::gen::element (0, 1, 2, 13, 500, 600, 600)) ;	// 600: a trailer in the container's own chunk syntax (a title chunk) - it is not part of the embedded file
 	return c ;
 }
 
@@ -162,7 +162,17 @@ static Result run_read (const Case &c, Result r)
 	bool do_embed = mut == 0 && embeddable (s.format) ;
 	if (do_embed)
 	{	size_t lead = (size_t) c.geti ("lead"), trail = (size_t) c.geti ("trail") ; std::vector<uint8_t> big (lead, 0x4a) ; for (auto &b : big) b = (uint8_t) rng.next () ;
-		big.insert (big.end (), bytes.begin (), bytes.end ()) ; for (size_t k = 0 ; k < trail ; k++) big.push_back ((uint8_t) rng.next ()) ;
+		big.insert (big.end (), bytes.begin (), bytes.end ()) ;
+		if (trail == 600 && bytes.size () >= 4)
+		{	bool rifx = memcmp (bytes.data (), "RIFX", 4) == 0, riff = memcmp (bytes.data (), "RIFF", 4) == 0, form = memcmp (bytes.data (), "FORM", 4) == 0 ;
+			auto put32 = [&] (uint32_t v, bool be) { for (int i = 0 ; i < 4 ; i++) big.push_back ((uint8_t) (v >> (be ? 24 - 8 * i : 8 * i))) ; } ;
+			auto puts4 = [&] (const char *t) { big.insert (big.end (), t, t + 4) ; } ;
+			if (big.size () & 1) big.push_back (0) ;
+			if (riff || rifx) { puts4 ("LIST") ; put32 (4 + 8 + 6, rifx) ; puts4 ("INFO") ; puts4 ("INAM") ; put32 (6, rifx) ; const char g [] = "GHOST" ; big.insert (big.end (), g, g + 6) ; }
+			else if (form) { puts4 ("NAME") ; put32 (6, true) ; const char g [] = "GHOST" ; big.insert (big.end (), g, g + 6) ; }
+			else for (size_t k = 0 ; k < 24 ; k++) big.push_back ((uint8_t) rng.next ()) ;
+		}
+		else for (size_t k = 0 ; k < trail ; k++) big.push_back ((uint8_t) rng.next ()) ;
 		std::string ep = base + ".emb" ; write_file (ep, big) ; int fd = open (ep.c_str (), O_RDONLY) ; lseek (fd, (off_t) lead, SEEK_SET) ;
 		SF_INFO i = mkinfo () ; SNDFILE *f = sf_open_fd (fd, SFM_READ, &i, 1) ; observe (f, i, obs ["embed"], vox) ; if (fcntl (fd, F_GETFD) != -1) close (fd) ; unlink (ep.c_str ()) ;
 		r.sig.seti ("outer_len", (long long) big.size ()) ; r.sig.seti ("trail", (long long) trail) ;
